@@ -22,10 +22,12 @@ func init() {
 			"(C17-replicas) the replica count is read only in `replicas > 1` and the number of generated pods is the constant 1 or 2; generated pods copy labels and ports from the template only; " +
 			"(C17-owner) a bare pod's workload is the ownerReference whose controller flag is true; " +
 			"(C17-kinds) kind tables of parser, engine dispatch and expansion agree, kind constants match Go types; " +
+			"(C17-identity) every place that identifies an owner by Owner.Name (comparison, map key, joined key) also uses Owner.Kind, and the pods generated for a workload are stored under a key containing the kind (today violated at four places: known finding F19); " +
 			"(C17-key) the peer key is namespace + owner-or-pod name + kind and the owners map is keyed by it; " +
 			"(C17-pure) no unreviewed long-lived write (memo) on the query paths that list peers. " +
 			"NOT decided: collisions between generated pod names and real pod names in podsMap; equality of outputs under re-expression."
 		rules.WorkloadExpansion(p, r, "C17")
+		rules.WorkloadIdentity(p, r, "C17-identity")
 		rules.KindTables(p, r, "C17-kinds")
 		rules.QueryPathWrites(p, r, "C17-pure")
 	})
